@@ -16,9 +16,14 @@
 
 package pemx
 
-import "encoding/pem"
+import (
+	"encoding/pem"
+	"errors"
+)
 
 type PEMBlockCallback func(idx int, blockType string, headers map[string]string, content []byte) error
+
+var ErrNoPEMData = errors.New("no PEM encoded data found")
 
 func ReadPEM(pemBytes []byte, callback PEMBlockCallback) error {
 	var block *pem.Block
@@ -28,6 +33,15 @@ func ReadPEM(pemBytes []byte, callback PEMBlockCallback) error {
 
 	for {
 		block, next = pem.Decode(next)
+		if block == nil {
+			// no (further) PEM block found
+			if idx == 0 {
+				return ErrNoPEMData
+			}
+
+			break
+		}
+
 		if err := callback(idx, block.Type, block.Headers, block.Bytes); err != nil {
 			return err
 		}
